@@ -809,6 +809,21 @@ class Verifier(InspectMixin, QuantMixin, LoopMixin, ExprMixin, CallMixin, StmtMi
         before = z3.Select(self.old.dct, r)
         return self.to_val_bool(now == z3.Store(before, kk, z3.Select(now, kk)))
 
+    def prim_key_pos(self, e, fr):
+        """key_pos(d, k): position of key k in the iteration order of dict d (meaningful when k is present: then
+        0 <= key_pos < len(d) and the key at that position is k)"""
+        d = self.ev(e.args[0], fr)
+        k = self.ev(e.args[1], fr)
+        kt = self.dict_keys_seq(d)
+        s = self.get_seq(kt)
+        pos = self.keypos_fn[s.get_id()]
+        kk = smt.simp(self.key_term(k))
+        arr = self.dict_arr(d)
+        p = pos(kk)
+        self._add_axiom(z3.Implies(z3.Select(arr, kk) != smt.ABSENT,
+                                   z3.And(p >= 0, p < z3.Length(s), smt.key_of(smt.elem_at(s, p)) == kk)))
+        return smt.simp(Val.int(p))
+
     def prim_uf(self, e, fr):
         """uf('name', a, b, ...): uninterpreted spec predicate over values (a dependency's semantics)"""
         name = ast.literal_eval(e.args[0])
@@ -1368,7 +1383,7 @@ class Verifier(InspectMixin, QuantMixin, LoopMixin, ExprMixin, CallMixin, StmtMi
         mod = self.index.modules.get(ct.module)
         pre = {}
         for loc in ct.modifies:
-            if not (loc in ('$fresh', '$containers') or (loc.startswith('$') and '(' not in loc)):
+            if not (loc in ('$fresh', '$containers') or loc.startswith('*.') or (loc.startswith('$') and '(' not in loc)):
                 pre[loc] = self.loc_target(loc, env, mod)
         for loc in ct.modifies:
             self.havoc_location(loc, env, pre.get(loc))
@@ -1391,6 +1406,15 @@ class Verifier(InspectMixin, QuantMixin, LoopMixin, ExprMixin, CallMixin, StmtMi
             return
         if loc == '$containers':
             self.havoc_containers()
+            return
+        if loc.startswith('*.'):
+            # wildcard frame entry '*.attr': the attribute cell `attr` of ANY object may have been (re)assigned - the
+            # attribute array gets a new base (field typing invariants are re-assumed lazily on it, as for entry reads)
+            attr = loc[2:]
+            self.hv_count = getattr(self, 'hv_count', 0) + 1
+            old_arr = self.attr_array(attr)
+            self.st.attrs[attr] = z3.Const(f'H_attr_{attr}!hv{self.hv_count}_{self.fresh_counter}', old_arr.sort())
+            self.writes.append(('*.' + attr, z3.IntVal(-1), ''))
             return
         if loc.startswith('$') and '(' not in loc:
             self.havoc_ghost(loc[1:])
@@ -1785,7 +1809,7 @@ class Verifier(InspectMixin, QuantMixin, LoopMixin, ExprMixin, CallMixin, StmtMi
         try:
             mod = self.index.modules.get(ct.module)
             for loc in ct.modifies:
-                if loc.startswith('$') and '(' not in loc:
+                if (loc.startswith('$') and '(' not in loc) or loc.startswith('*.'):
                     continue
                 allowed.append(self.loc_target(loc, vals, mod))
         finally:
@@ -1796,6 +1820,12 @@ class Verifier(InspectMixin, QuantMixin, LoopMixin, ExprMixin, CallMixin, StmtMi
                 self.oblige('frame', 'a callee may change the contents of any pre-existing container ($containers), which '
                                      'this contract does not list', z3.BoolVal('$containers' in ct.modifies), fprops)
                 continue
+            if f.startswith('*.'):
+                self.oblige('frame', f'a callee may assign attribute {f[2:]} of any object ({f}), which this contract '
+                                     f'does not list', z3.BoolVal(f in ct.modifies), fprops)
+                continue
+            if ('*.' + f) in ct.modifies:
+                continue                    # wildcard entry: attribute f of any object
             opts = [r >= smt.FRESH_BASE]
             if '$containers' in ct.modifies and f in ('$seq', '$dict'):
                 continue
